@@ -5,7 +5,10 @@ DS9_FLAGS = ['select', 'highlite', 'fixed', 'edit', 'move', 'delete', 'rotate',
              'source', 'background']
 TEXTS = ['abc', 'a b', 'two  spaces', 'semi;colon', 'hash # tag', 'k=v',
          'mixed; a=b # c', 'M 31', 'x', 'Text', 'image', 'circle(1,2,3)',
-         'UPPER lower', "it's", 'say "hi"', '-5 deg', 'global color=red']
+         'UPPER lower', "it's", 'say "hi"', '-5 deg', 'global color=red',
+         # delimiter characters inside the string (DS9 offers {} "" '')
+         'a}', '{x}', 'a{b}c', '}', '"quoted"', "'q'", ' lead', 'trail ',
+         '30"', 'x # y {z}', 'a}"']
 NUMERIC_TEXTS = ['007', '42', '1e3', '3.50', '-0', 'nan', 'inf', '0x10', '1_000']
 COLORS = ['red', 'green', 'blue', 'cyan', 'magenta', 'yellow', 'black',
           'white', '#ff00aa', '#0F0', '#123456']
@@ -22,7 +25,8 @@ def ds9_meta(numeric_text=False):
     texts = TEXTS + (NUMERIC_TEXTS if numeric_text else [])
     return st.fixed_dictionaries({}, optional={
         'text': st.sampled_from(texts),
-        'tag': st.lists(st.sampled_from(['t1', 't 2', 'Group A', 'x=y', 'bkg']),
+        'tag': st.lists(st.sampled_from(['t1', 't 2', 'Group A', 'x=y', 'bkg',
+                                         'a}b', '{t}', '"q"']),
                         min_size=1, max_size=3),
         'include': st.sampled_from([True, False, 1, 0]),
         'select': st.sampled_from([0, 1]),
